@@ -477,10 +477,12 @@ fn parse_mh2o_chunk<R: Read + Seek>(
                 let mut bitmap_bytes = vec![0u8; byte_count];
                 match reader.read_exact(&mut bitmap_bytes) {
                     Ok(_) => {
-                        // Convert to u64 by padding with zeros
+                        // Convert to u64 by padding with zeros. width/height come from the
+                        // file and may describe more than the 8x8 tiles a u64 can hold;
+                        // only the first 8 bytes are meaningful.
                         let mut padded = [0u8; 8];
-                        for (i, &byte) in bitmap_bytes.iter().enumerate() {
-                            padded[i] = byte;
+                        for (dst, &byte) in padded.iter_mut().zip(bitmap_bytes.iter()) {
+                            *dst = byte;
                         }
                         let bitmap = u64::from_le_bytes(padded);
                         Some(bitmap)
@@ -518,8 +520,8 @@ fn parse_mh2o_chunk<R: Read + Seek>(
                         // Read vertices and place them at correct grid positions
                         // Vertices are stored in row-major order: z * 9 + x
                         // CRITICAL: Clamp coordinates to [0, 8] - some WoW files have invalid ranges
-                        let z_end = ((instance.y_offset + instance.height) as usize).min(8);
-                        let x_end = ((instance.x_offset + instance.width) as usize).min(8);
+                        let z_end = (instance.y_offset as usize + instance.height as usize).min(8);
+                        let x_end = (instance.x_offset as usize + instance.width as usize).min(8);
 
                         for z in instance.y_offset as usize..=z_end {
                             for x in instance.x_offset as usize..=x_end {
@@ -536,8 +538,8 @@ fn parse_mh2o_chunk<R: Read + Seek>(
                     }
                     Some(crate::chunks::mh2o::LiquidVertexFormat::HeightUv) => {
                         let mut grid: [Option<HeightUvVertex>; 81] = [None; 81];
-                        let z_end = ((instance.y_offset + instance.height) as usize).min(8);
-                        let x_end = ((instance.x_offset + instance.width) as usize).min(8);
+                        let z_end = (instance.y_offset as usize + instance.height as usize).min(8);
+                        let x_end = (instance.x_offset as usize + instance.width as usize).min(8);
 
                         for z in instance.y_offset as usize..=z_end {
                             for x in instance.x_offset as usize..=x_end {
@@ -554,8 +556,8 @@ fn parse_mh2o_chunk<R: Read + Seek>(
                     }
                     Some(crate::chunks::mh2o::LiquidVertexFormat::DepthOnly) => {
                         let mut grid: [Option<DepthOnlyVertex>; 81] = [None; 81];
-                        let z_end = ((instance.y_offset + instance.height) as usize).min(8);
-                        let x_end = ((instance.x_offset + instance.width) as usize).min(8);
+                        let z_end = (instance.y_offset as usize + instance.height as usize).min(8);
+                        let x_end = (instance.x_offset as usize + instance.width as usize).min(8);
 
                         for z in instance.y_offset as usize..=z_end {
                             for x in instance.x_offset as usize..=x_end {
@@ -572,8 +574,8 @@ fn parse_mh2o_chunk<R: Read + Seek>(
                     }
                     Some(crate::chunks::mh2o::LiquidVertexFormat::HeightUvDepth) => {
                         let mut grid: [Option<HeightUvDepthVertex>; 81] = [None; 81];
-                        let z_end = ((instance.y_offset + instance.height) as usize).min(8);
-                        let x_end = ((instance.x_offset + instance.width) as usize).min(8);
+                        let z_end = (instance.y_offset as usize + instance.height as usize).min(8);
+                        let x_end = (instance.x_offset as usize + instance.width as usize).min(8);
 
                         for z in instance.y_offset as usize..=z_end {
                             for x in instance.x_offset as usize..=x_end {
